@@ -2,6 +2,8 @@ import Casket.Model.FCGI
 import Casket.Spec.FCGI
 import Casket.Model.FCGIRoute
 import Casket.Spec.FCGIRoute
+import Casket.Model.FCGIShared
+import Casket.Spec.FCGIShared
 import Driver.Proto
 /-
 Streams of C13.
@@ -227,6 +229,36 @@ def routeJudge (f : List String) (out : String) : String :=
           | none => "bad:unparsable:rule index"
         | _, _, _ => "bad:unparsable:" ++ (out.take 60).toString
       | _ => "bad:unparsable:" ++ (out.take 60).toString
+
+/-! c13.routeseq  cs rules files (method pathhex queryhex headershex bodyhex remote te)+
+   The requests are served one after the other by ONE fastcgi middleware; the handler keeps nothing
+   between requests, so each answer is that of c13.route for the request alone.  out = the answers, TAB separated. -/
+def seqCases : List String → Option (List (List String))
+  | cs :: rules :: files :: rest =>
+    let rec go : Nat → List String → Option (List (List String))
+      | 0, _ => none
+      | _ + 1, [] => some []
+      | n + 1, m :: p :: q :: h :: b :: rm :: te :: more => do
+        pure ([cs, rules, files, m, p, q, h, b, rm, te] :: (← go n more))
+      | _ + 1, _ => none
+    go (rest.length + 1) rest
+  | _ => none
+
+def routeseqModel (f : List String) : String :=
+  match seqCases f with
+  | some cases => "\t".intercalate (cases.map routeModel)
+  | none => "bad-case"
+
+def routeseqJudge (f : List String) (out : String) : String :=
+  match seqCases f with
+  | none => "bad:unparsable:case"
+  | some cases =>
+    let outs := out.splitOn "\t"
+    if outs.length ≠ cases.length then "bad:unparsable:not one answer per request"
+    else
+      match ((cases.zip outs).map fun (c, o) => routeJudge c o).find? (· ≠ "ok") with
+      | some v => v
+      | none => "ok"
 end route
 
 /-! c13.child  vars hdrs body status respbody
@@ -328,10 +360,123 @@ def wfailJudge (f : List String) (out : String) : String :=
   | some (w, k), some acc => brokenConnVerdict w acc k
   | _, _ => if out.startsWith "PANIC" then "bad:panic:" ++ out else "bad:unparsable:" ++ (out.take 60).toString
 
+/-! c13.overlap  level sched drain (outhex errhex rawhex)+
+   Several responses in flight, read in lock-step on one goroutine.  level r: the demultiplexing reader
+   itself, sched = comma list of  i.n  (one Read of client i with an n-byte buffer); level q:
+   FCGIClient.Request (first step of a client) and resp.Body.Read.  Afterwards every client is read to
+   its end with `drain`-byte buffers.  out = one answer per client, TAB separated:
+     level r  out=<hex>;err=<hex>;fin=<eof|ueof|badver|none>      level q  as c13.demux -/
+def parseSched (s : String) : Option Sched :=
+  (splitList "," s).mapM fun it =>
+    match it.splitOn "." with
+    | [i, n] => do pure (← i.toNat?, ← n.toNat?)
+    | [i] => do pure (← i.toNat?, 0)
+    | _ => none
+
+/-- (stdout, stderr, raw) per client -/
+def parseClients : List String → Option (List (Bytes × Bytes × Bytes))
+  | [] => some []
+  | o :: e :: raw :: rest => do
+    let o ← Driver.unhex o
+    let e ← Driver.unhex e
+    let raw ← Driver.unhex raw
+    pure ((o, e, raw) :: (← parseClients rest))
+  | _ => none
+
+def finOptName : Option ReadErr → String
+  | none => "none"
+  | some e => finName e
+
+def showEnding (e : Ending) : String :=
+  s!"out={Driver.hex e.out};err={Driver.hex e.stderr};fin={finOptName e.fin}"
+
+def parseEnding (s : String) : Option Ending :=
+  match s.splitOn ";" with
+  | [o, e, fin] => do
+    let o ← Driver.unhex (← parseField "out=" o)
+    let e ← Driver.unhex (← parseField "err=" e)
+    let fin ← match (← parseField "fin=" fin) with
+      | "eof" => some (some ReadErr.eof)
+      | "ueof" => some (some ReadErr.unexpectedEOF)
+      | "badver" => some (some ReadErr.badVersion)
+      | "none" => some none
+      | _ => none
+    pure { out := o, fin := fin, stderr := e }
+  | _ => none
+
+def overlapModel : List String → String
+  | level :: sched :: drain :: cs =>
+    match parseSched sched, drain.toNat?, parseClients cs with
+    | some sched, some drain, some cs =>
+      if level == "r" then
+        match overlapRun allocFresh (cs.map (·.2.2)) sched drain with
+        | .error f => "PANIC:" ++ f.name
+        | .ok es => "\t".intercalate (es.map showEnding)
+      else "\t".intercalate (cs.map fun c => showView (clientView c.2.2))
+    | _, _, _ => "bad-case"
+  | _ => "bad-case"
+
+def overlapJudge (f : List String) (out : String) : String :=
+  match f with
+  | level :: _ :: _ :: cs =>
+    match parseClients cs with
+    | none => "bad:unparsable:case"
+    | some cs =>
+      let intended := cs.map fun c => (c.1, c.2.1)
+      if out.startsWith "PANIC" then "bad:panic:" ++ out
+      else if level == "r" then
+        match (out.splitOn "\t").mapM parseEnding with
+        | some es => overlapVerdict intended es
+        | none => "bad:cross-talk:unreadable answer " ++ (out.take 60).toString
+      else
+        match (out.splitOn "\t").mapM parseView with
+        | some vs => overlapViewVerdict intended vs
+        | none => "bad:cross-talk:a client got no response: " ++ (out.take 60).toString
+  | _ => "bad:unparsable:case"
+
+/-! c13.woverlap  prelude sched (id pairs body rk)+
+   Do calls whose write phases overlap (turn by turn, see the harness), after the requests of `prelude`
+   failed on broken connections.  Nothing in the client is shared between requests, so the model's answer
+   does not depend on prelude or schedule.  out = hex of what each connection received, TAB separated. -/
+def parseAsked : List String → Option (List (Asked × BodyReader))
+  | [] => some []
+  | id :: ps :: body :: rk :: rest => do
+    let id ← id.toNat?
+    let ps ← parsePairs ps
+    let body ← parseBody body
+    let rk ← parseReader rk body.length
+    pure (({ id := id, pairs := ps, body := body }, rk) :: (← parseAsked rest))
+  | _ => none
+
+def woverlapModel : List String → String
+  | _ :: _ :: cs =>
+    match parseAsked cs with
+    | none => "bad-case"
+    | some qs => "\t".intercalate (qs.map fun (q, rk) =>
+        match clientWireVia q.id q.pairs q.body rk with
+        | .ok w => Driver.hex w
+        | .error f => "PANIC:" ++ f.name)
+  | _ => "bad-case"
+
+def woverlapJudge (f : List String) (out : String) : String :=
+  match f with
+  | _ :: _ :: cs =>
+    match parseAsked cs with
+    | none => "bad:unparsable:case"
+    | some qs =>
+      if (out.splitOn "PANIC").length > 1 then "bad:panic:" ++ (out.take 200).toString
+      else match (out.splitOn "\t").mapM Driver.unhex with
+        | some ws => overlapWireVerdict (qs.map (·.1)) ws
+        | none => "bad:cross-talk:a request was not written: " ++ (out.take 80).toString
+  | _ => "bad:unparsable:case"
+
 def streams : List Driver.Stream := [
+  { name := "c13.overlap", model := overlapModel, judge := overlapJudge },
+  { name := "c13.woverlap", model := woverlapModel, judge := woverlapJudge },
   { name := "c13.wire", model := wireModel, judge := wireJudge },
   { name := "c13.demux", model := demuxModel, judge := demuxJudge },
   { name := "c13.route", model := routeModel, judge := routeJudge },
+  { name := "c13.routeseq", model := routeseqModel, judge := routeseqJudge },
   { name := "c13.child", model := childModel, judge := childJudge },
   { name := "c13.reads", model := readsModel, judge := readsJudge },
   { name := "c13.wfail", model := wfailModel, judge := wfailJudge }
